@@ -83,6 +83,28 @@ func modelSortSearch(f *Frame, in ssa.Instruction, guard string, st *State, args
 		sub := st.clone()
 		f.callFunc(in, clo.Fn, clo.Bindings, g, sub, []Val{{T: i, Typ: types.Typ[types.Int]}}, types.Typ[types.Bool])
 		f.havocWrites(clo.Fn, st)
+		// what binary search guarantees for ANY predicate that is a function of its argument (its loop invariant
+		// f(lo-1) == false, f(hi) == true at the evaluated points): the result j has f(j-1) false if j > 0 and f(j)
+		// true if j < n. The predicate is re-executed symbolically at j-1 and at j in the state after the search;
+		// this presumes its result does not depend on the locations it writes itself (listed as an assumption).
+		e.note("sort.Search: result characterised by re-executing the predicate at result-1 (false) and result (true); presumes the predicate's value does not depend on what the predicate writes")
+		e.mute++
+		for k := 0; k < 2; k++ {
+			idx, cond := fmt.Sprintf("(- %s 1)", j), fmt.Sprintf("(> %s 0)", j)
+			if k == 1 {
+				idx, cond = j, fmt.Sprintf("(< %s %s)", j, n.T)
+			}
+			iv := e.define("search_k", sInt, idx)
+			g2 := e.define("search_gk", sBool, and(guard, cond))
+			sub2 := st.clone()
+			r := f.callFunc(in, clo.Fn, clo.Bindings, g2, sub2, []Val{{T: iv, Typ: types.Typ[types.Int]}}, types.Typ[types.Bool])
+			if k == 0 {
+				e.assume(g2, fmt.Sprintf("(not %s)", r.T))
+			} else {
+				e.assume(g2, r.T)
+			}
+		}
+		e.mute--
 	} else {
 		e.note("sort.Search with an unknown function value: all heaps havocked")
 		f.havocAll(st)
